@@ -363,7 +363,7 @@ def run_case(ctx, H, lines, sig, detail, out):
     except Died as d:
         if d.info.get("eof"):
             raise
-        how = "signal-%s" % d.info.get("signal") if "signal" in d.info else "exit-%s" % d.info.get("exit")
+        how = "hang" if d.info.get("hang") else ("signal-%s" % d.info.get("signal") if "signal" in d.info else "exit-%s" % d.info.get("exit"))
         out["viol"].setdefault(sig + "|" + how, {"signature": sig + "|" + how, "detail": dict(detail, during=(d.during or "")[:400]), "history": [x[:400] for x in lines], "action": None})
     finally:
         sh.unwind(d0)
@@ -662,7 +662,7 @@ def _task_files(task):
                 if asan:
                     out["viol"].setdefault(sig + "|asan-report", {"signature": sig + "|asan-report", "detail": {"mutation": mname, "file": rel}, "history": [], "action": None, "task": [target, mi, mi + 1, quick]})
             except Died as d:
-                how = "signal" if (d.info.get("returncode") or 0) < 0 else "exit-%s" % d.info.get("returncode")
+                how = "hang" if d.info.get("hang") else ("signal" if (d.info.get("returncode") or 0) < 0 else "exit-%s" % d.info.get("returncode"))
                 shx.close()
                 log = ""
                 import glob as _g, io, tarfile, base64
